@@ -37,6 +37,7 @@ def _memo(fn):
     cache = {}
 
     def wrapped(idx):
+        wrapped.reads += 1
         key = tuple(i if isinstance(i, int) else (i.e.get_id() if hasattr(i, "e") else (i.get_id() if z3.is_expr(i) else id(i))) for i in idx)
         hit = cache.get(key)
         if hit is not None:
@@ -47,6 +48,7 @@ def _memo(fn):
         cache[key] = (idx, r)  # keep the index terms alive: z3 recycles ids of freed terms
         return r
 
+    wrapped.reads = 0
     return wrapped
 
 
@@ -56,6 +58,7 @@ class Buffer:
         self.fn = _memo(fn)  # tuple(index terms) -> z3 expr of sort kind
         self.kind = kind
         self.version = 0
+        self.n_frozen = 0  # number of readers created on this buffer (data-dependence tracking for loop rules)
         self.id = next(_buf_ids)
         self.origin = origin
 
@@ -215,6 +218,7 @@ class SymArr(_np.ndarray):
 
     def frozen(self):
         """element function that is insensitive to later writes"""
+        self._buf.n_frozen += 1
         fn = self._buf.fn
         bufidx = self._bufidx
         return lambda idx: fn(bufidx(idx))
@@ -1899,6 +1903,59 @@ def sym_allclose(a, b, **kw):
     return wrap(b)
 
 
+class _CutNdindex:
+    """`for i in np.ndindex(shape)` with symbolic extents: a loop whose iterations are independent.
+    Rule (the pending loop contract supplies the pieces):
+        havoc the written buffer; pick a generic index tuple i in range; run the real body once;
+        the contract proves  P(i)  about the region R(i) it wrote, that nothing outside R(i) changed, and that the
+        body did not read the written buffer; afterwards the buffer is havoced again and  forall i. P(i)  is assumed.
+    Sound because iteration i then neither depends on nor disturbs any other iteration."""
+
+    def __init__(self, shape, lc, frame):
+        self.shape, self.lc, self.frame = shape, lc, frame
+        self.state = 0
+
+    def __iter__(self):
+        return self
+
+    def __next__(self):
+        c = ctx()
+        L = self.frame.f_locals
+        if self.state == 0:
+            idx = []
+            for j, n in enumerate(self.shape):
+                if isinstance(n, int):
+                    raise Unsupported("ndindex loop contract with a concrete extent (mixed shapes are enumerated instead)")
+                v = wrap(c.fresh(f"nd{j}", "int"))
+                c.assume(z3.And(to_int(v) >= 0, to_int(v) < to_int(n)))
+                idx.append(v)
+            self.idx = tuple(idx)
+            self.lc.havoc(L)
+            self.lc.before_body(L, self.idx)
+            self.state = 1
+            return self.idx
+        if self.state == 1:
+            self.lc.after_body(L, self.idx)
+            self.lc.havoc(L)
+            self.lc.assume_all(L)
+            self.state = 2
+        raise StopIteration
+
+
+def sym_ndindex(*shape):
+    import sys
+
+    if len(shape) == 1 and isinstance(shape[0], (tuple, list)):
+        shape = tuple(shape[0])
+    if not any(isinstance(n, SymInt) for n in shape):
+        return _np.ndindex(*shape)
+    c = ctx()
+    if not c.loop_contracts:
+        raise Unsupported("np.ndindex over symbolic extents: loop needs a contract (none pending)")
+    lc = c.loop_contracts.pop(0)
+    return _CutNdindex(tuple(shape), lc, sys._getframe(1))
+
+
 def sym_diag_indices(n, ndim=2):
     if not isinstance(n, SymInt):
         return _np.diag_indices(n, ndim)
@@ -1986,6 +2043,7 @@ class NPShim:
     concatenate = staticmethod(sym_concatenate)
     allclose = staticmethod(sym_allclose)
     diag_indices = staticmethod(sym_diag_indices)
+    ndindex = staticmethod(sym_ndindex)
     log = staticmethod(sym_log)
     sqrt = staticmethod(sym_sqrt)
     exp = staticmethod(sym_exp)
